@@ -30,10 +30,7 @@ class Run:
         cfg = self.cfg
         mach = self.mach
         if build:
-            n0 = len(mach.steps)
-            mach.build(cfg["n_spaces"], cfg["n_cells"], cfg["n_refs"])
-            for s in mach.steps[n0:]:
-                self.ctx.steps.append(s)
+            mach.build(cfg["n_spaces"], cfg["n_cells"], cfg["n_refs"], do=self.step)
         for i in range(n_steps):
             op = None
             for o in self.oracles:
@@ -60,6 +57,10 @@ class Run:
             for o in self.oracles:
                 o.checkpoint(op)
             return None
+        for o in self.oracles:
+            if o.owns(op):
+                self.mach.events.append("own " + op["op"])
+                return o.do(op)
         for o in self.oracles:
             o.before(op)
         out = self.mach.do(op, record=False)
@@ -94,6 +95,12 @@ class Run:
 
 class Oracle:
     def start(self):
+        pass
+
+    def owns(self, op):
+        return False
+
+    def do(self, op):
         pass
 
     def propose(self):
